@@ -71,6 +71,11 @@ CLAIMED = {
    note="Trusted: state-vector universe (vanilla and NV instruction semantics written from definitions; validated against each other on CNOT/CPHASE/MOV), generator. Virtual qubit 0 stays allocated; Q registers and C15 are excluded from the classical comparison; two recorded findings are masked in half of the runs.",
    technique="deterministic simulation: vanilla/NV twin executors under one seeded stream of collapse draws + state-vector comparison",
    ref="§5 C08"),
+ "C18": dict(
+   text="Seeded exploration of thread schedules: 2-3 endpoint programs (socket pairs on ids 0/1 or a 3-party broadcast channel; <=4 operations each: send / blocking-with-timeout and non-blocking receive, structured and silent variants, callback delivery, disconnect by dropping the socket at a drawn point) run in real threads that move only while holding the scheduler's baton; every source line of socket_hub.py / thread_socket/socket.py / broadcast_channel.py is a pre-emption point decided by the seeded choice stream; sleep, timer and Lock are virtual. Oracle over the recorded invoke/return history: per channel the received sequence is a duplicate-free prefix of what was sent, received + still-queued == sent (exactly once), non-blocking receives report emptiness only when nothing was certainly there, sends to a departed peer fail with ConnectionError, constructors rendezvous without timeout or deadlock.",
+   note="Trusted: baton scheduler (one thread runs at a time; line-level pre-emption), virtual time (a sleeper may be resumed at any time, which jumps the clock), endpoint programs deadlock-free by construction. Socket keys are not reused within a run.",
+   technique="deterministic simulation: real threads under a seeded baton scheduler with line-level pre-emption, virtual sleep/timer/Lock + history oracle",
+   ref="§5 C18"),
 }
 
 PENDING = {p: 'check not built yet in this round (simulation target per DESIGN §5; will be claimed when its rig exists)' for p in ['C05','C06','C08','C09','C10','C11','C12','C13','C14','C18','C20']}
